@@ -634,6 +634,30 @@ func commitUniqueness(tier string, shard, n int) (cycles int, decisions int, vio
 					count[d.Kind+" "+d.Pod]++
 				}
 			}
+			// the same cycle with every single bind failing in turn: a commit that gives a bind up must
+			// leave exactly the net effect of what it did emit - the queues are charged with the pods that
+			// are still allocated (or nominated) and with nothing else, at every level
+			for _, d := range res.Decisions {
+				if d.Kind != "bind" || d.Failed {
+					continue
+				}
+				fc := cfg
+				fc.Faults = map[string]bool{"bind:" + d.Pod: true}
+				obs := &accountingObserver{tr: sessioncheck.NewTracker()}
+				if _, err := schedrun.RunCycle(sc.World, fc, obs); err != nil {
+					continue
+				}
+				cycles++
+				for _, p := range obs.problems {
+					if !strings.HasPrefix(p.Key, "queue-") {
+						continue
+					}
+					viol = append(viol, engine.Violation{Property: "C13", Key: "C13/failed-bind-at-commit-changes-queue-usage " + p.Key,
+						Message: fmt.Sprintf("scenario %s cfg %s with the bind of %s failing: %s", sc.Name, cfg.Label(), d.Pod, p.Msg),
+						Replay:  map[string]any{"scenario": sc.Name, "world": json.RawMessage(sc.World.JSON()), "fault": "bind:" + d.Pod}})
+					break
+				}
+			}
 			for k, c := range count {
 				if c > 1 {
 					kind := strings.Fields(k)[0]
